@@ -145,6 +145,14 @@ class NaiveBayes(BayesianNetwork):
         else:
             return set(self.nodes()) - set(observed if observed else [])
 
+    def is_dconnected(self, start, end, observed=None, include_latents=False):
+        """
+        Returns True if there is an active trail (i.e. d-connection) between
+        `start` and `end` node given that `observed` is observed.
+        (`active_trail_nodes` of this class returns a set, not a dict.)
+        """
+        return end in self.active_trail_nodes(start, observed)
+
     def local_independencies(self, variables):
         """
         Returns an instance of Independencies containing the local independencies
